@@ -1,5 +1,6 @@
 import HeimdallModel.Model.Trie
 import HeimdallModel.Model.Matcher
+import HeimdallModel.Model.UpstreamUrl
 /-!
 # The rule repository (`internal/rules/repository_impl.go`), sequential semantics
 
@@ -14,6 +15,7 @@ structure RuleCfg where
   esh    : SlashHandling
   routes : List (String × RouteM)       -- path expression, matching conditions
   ver    : Nat := 0                     -- stands for everything else of this version of the rule (pipeline, backend)
+  backend : Option BackendCfg := none   -- `forward_to` (`none`: the rule has no backend)
 deriving Repr
 
 /-- what is stored in the routing tree: one entry per route -/
@@ -157,5 +159,20 @@ def Repo.serve (s : Repo) (hasDefault : Bool) (q : ReqView) : Served :=
   | .none => ⟨none, none⟩
   | .default => ⟨some ("config", "default"), some (execPrelude .off q [])⟩
   | .rule v ps => ⟨some (v.src, v.rid), some (execPrelude v.esh q ps)⟩
+
+/-- the rule object an entry of the routing tree points to (`route.Rule()`): the known rule of that rule set with that
+id and version (`ver` stands for the identity of the version, see `RuleCfg`) -/
+def Repo.ruleOf (s : Repo) (v : RVal) : Option Rule :=
+  s.known.find? fun r => r.src == v.src && r.cfg.id == v.rid && r.cfg.ver == v.ver
+
+/-- the URL the request is forwarded to: the matched rule has a backend and its execution reached the end of the
+(here: always succeeding) pipeline; the default rule has no backend -/
+def Repo.upstream (s : Repo) (hasDefault : Bool) (q : ReqView) (rawQuery : String) : Option UpUrl :=
+  match s.findRule hasDefault q with
+  | .rule v ps =>
+    match execPrelude v.esh q ps, (s.ruleOf v).bind (·.cfg.backend) with
+    | .ok _, some be => some (upstreamUrl v.esh be q rawQuery)
+    | _, _ => none
+  | _ => none
 
 end Heimdall
